@@ -1,5 +1,6 @@
 from __future__ import annotations
 
+import os
 from collections import Counter, defaultdict
 from typing import TYPE_CHECKING, NamedTuple
 
@@ -23,6 +24,12 @@ if TYPE_CHECKING:
 
     KT = TypeVar("KT", bound=Hashable, covariant=True)
     VT = TypeVar("VT", bound=Hashable, covariant=True)
+
+# Verification hook (add-only, off unless STEREOMOLGRAPH_VERIF=1 and a tracer is
+# installed by the verification harness): reports the steps of the VF2++ loop.
+_VERIF = os.environ.get("STEREOMOLGRAPH_VERIF") == "1"
+_verif_tracer = None
+
 
 class _Parameters(NamedTuple):
     """
@@ -359,6 +366,8 @@ def vf2pp_all_isomorphisms(
 
     stack: list[tuple[AtomId, set[AtomId]]] = []
     stack.append((node_order[0], candidates))
+    if _VERIF and _verif_tracer is not None:
+        _verif_tracer("init", None, None, None, node_order, params, state, stack)
 
     # Index of the node from the order, currently being examined
     matching_atom_index = 1
@@ -378,6 +387,8 @@ def vf2pp_all_isomorphisms(
                 last_atom2 = mapping.pop(last_atom1)
                 inverted_mapping.pop(last_atom2)
                 revert_state(last_atom1, last_atom2, state, params)
+            if _VERIF and _verif_tracer is not None:
+                _verif_tracer("pop", None, None, None, node_order, params, state, stack)
             continue
 
         mapping[matching_atom] = candidate
@@ -388,6 +399,8 @@ def vf2pp_all_isomorphisms(
                 yield mapping.copy()
                 mapping.pop(matching_atom)
                 inverted_mapping.pop(candidate)
+                if _VERIF and _verif_tracer is not None:
+                    _verif_tracer("try", matching_atom, candidate, "yield", node_order, params, state, stack)
                 continue
 
             update_state(matching_atom, candidate, state, params)
@@ -396,10 +409,14 @@ def vf2pp_all_isomorphisms(
             candidates = find_candidates(matching_atom, state, params)
             stack.append((matching_atom, candidates))
             matching_atom_index += 1
+            if _VERIF and _verif_tracer is not None:
+                _verif_tracer("try", stack[-2][0], candidate, "push", node_order, params, state, stack)
 
         else:  # if not feaseble
             mapping.pop(matching_atom)
             inverted_mapping.pop(candidate)
+            if _VERIF and _verif_tracer is not None:
+                _verif_tracer("try", matching_atom, candidate, "reject", node_order, params, state, stack)
 
 
 def _graph_feasibility(
